@@ -49,6 +49,8 @@ def run_history(ctx, h, idx):
         argv.append(h.get("variant", "plain"))
     elif h.get("switches"):
         argv.append(str(h["switches"]))
+        if h.get("pace"):
+            argv.append(str(h["pace"]))
     res = {"rc": None, "err": "", "v": [], "stats": {}, "tsan": None, "hooks": "", "stacks": ""}
     errp = os.path.join(d, "stderr")
     with open(errp, "wb") as errf:
